@@ -160,6 +160,16 @@ def programs(rng, tier):
         progs.append(text_program(data))
     for _ in range(400 if tier == "quick" else 10000):
         progs.append(text_program(bytes(rng.randrange(256) for _ in range(rng.randint(0, 24)))))
+    # malformed records that are LONG (35..60 bytes) and contain multi-byte characters around byte offsets 38..42 and at the very
+    # end (an error message that slices the offending token at a fixed byte offset, or strips the last byte, lands inside one)
+    MB = ["\u00e9", "\u20ac", "\U0001f600", "\u00a0", "\u3000"]
+    for _ in range(120 if tier == "quick" else 3000):
+        items = rng.choice([1, 2, 2, 4])
+        body = ",".join("".join(rng.choice("0123456789") for _ in range(rng.randrange(1, 30))) for _ in range(items))
+        pos = rng.choice([36, 37, 38, 39, 40, 41, 42, len(body)])
+        body = body[:pos].ljust(min(pos, 60), "7") + rng.choice(MB) * rng.choice([1, 2, 3]) + body[pos:]
+        txt = "|3,0,0|3,1,1|" + body + rng.choice(["|", "", "|" + rng.choice(MB)])
+        progs.append(text_program(txt.encode("utf-8")))
     for _ in range(300 if tier == "quick" else 5000):
         # scripted stream on malformed text
         data = mutate_bytes(rng, py_to_text(rand_operand(rng, rng.choice([1, 2, 3]), 0.2)))
